@@ -465,4 +465,31 @@ example : decode (encode (.array [.int (-5), .map [(.text [0x61], .tag 2 (.bytes
   apply decode_encode
   simp [Item.WF, WFL, WFKV]
 
+/-- The executable check implies the well-formedness the theorems assume. -/
+theorem wfb_all : (∀ x : Item, x.wfb = true → x.WF) ∧ (∀ kvs, wfbKV kvs = true → WFKV kvs) ∧
+    (∀ xs, wfbL xs = true → WFL xs) := by
+  apply encode.mutual_induct
+    (motive_1 := fun x => x.wfb = true → x.WF)
+    (motive_2 := fun kvs => wfbKV kvs = true → WFKV kvs)
+    (motive_3 := fun xs => wfbL xs = true → WFL xs)
+  · intro v _ h; simp [Item.wfb] at h; unfold Item.WF; exact h
+  · intro v _ h; simp [Item.wfb] at h; unfold Item.WF; exact h
+  · intro b h; simp [Item.wfb] at h; unfold Item.WF; exact h
+  · intro cs h; simp [Item.wfb] at h; unfold Item.WF; exact h
+  · intro b h; simp [Item.wfb] at h; unfold Item.WF; exact h
+  · intro xs ih h; simp [Item.wfb] at h; unfold Item.WF; exact ⟨h.1, ih h.2⟩
+  · intro xs ih h; simp [Item.wfb] at h; unfold Item.WF; exact ih h
+  · intro kvs ih h; simp [Item.wfb] at h; unfold Item.WF; exact ⟨h.1, ih h.2⟩
+  · intro t x ih h; simp [Item.wfb] at h; unfold Item.WF; exact ⟨h.1, ih h.2⟩
+  · intro n _ h; simp [Item.wfb] at h; unfold Item.WF; exact h
+  · intro n _ h; simp [Item.wfb] at h; unfold Item.WF; exact h
+  · intro raw h; simp [Item.wfb] at h; unfold Item.WF; omega
+  · intro _; unfold WFL; trivial
+  · intro x xs ihx ihxs h; simp [wfbL] at h; unfold WFL; exact ⟨ihx h.1, ihxs h.2⟩
+  · intro _; unfold WFKV; trivial
+  · intro k v r ihk ihv ihr h; simp [wfbKV] at h; unfold WFKV; exact ⟨ihk h.1.1, ihv h.1.2, ihr h.2⟩
+
+theorem decode_encode_of_wfb (x : Item) (h : x.wfb = true) : decode (encode x) = some x :=
+  decode_encode x (wfb_all.1 x h)
+
 end Tx3.Cbor
